@@ -25,6 +25,7 @@ func init() {
 			{"C20-R1", "v4/v6 parity", c20r1},
 			{"C20-R2", "exemptions precede capture in ISTIO_OUTPUT", c20r2},
 			{"C20-R3", "loopback flag is monotone", c20r3},
+			{"C20-R4", "a negated include filter is one rule over the whole list", c20r4},
 		},
 	})
 }
@@ -442,4 +443,63 @@ func isAddrLiteral(s string) bool {
 		}
 	}
 	return true
+}
+
+
+// C20-R4: "capture only the traffic of these owners" is expressed as ONE rule `! owner a ! owner b ... -j RETURN`
+// (the packet is none of them => leave it alone). Negated matches only combine by AND inside a single rule: spread over
+// several first-match RETURN rules (a loop, chunks of the list) each rule returns the members of the other chunks and
+// nothing is captured any more. So: every CombineMatchers whose per-value matcher negates ("!") receives the complete
+// value list, and the rule built from its result is not appended inside a loop.
+func c20r4(c *Ctx) {
+	p := c.P
+	pkgCap := "tools/istio-iptables/pkg/capture"
+	cm := p.FuncObj(pkgCap, "", "CombineMatchers")
+	n := 0
+	for _, fn := range p.AllFuncs {
+		if funcPkgPath(fn) != istioMod+"/"+pkgCap || strings.HasSuffix(p.Fset.Position(fn.Pos()).Filename, "_test.go") {
+			continue
+		}
+		for _, call := range callsIn(fn, cm) {
+			args := call.Common().Args
+			// does the matcher negate?
+			neg := false
+			var lit *ssa.Function
+			switch x := args[1].(type) {
+			case *ssa.MakeClosure:
+				lit, _ = x.Fn.(*ssa.Function)
+			case *ssa.Function:
+				lit = x
+			}
+			if lit != nil {
+				eachInstr(lit, func(ins ssa.Instruction) {
+					var ops []*ssa.Value
+					for _, op := range ins.Operands(ops) {
+						if op != nil && *op != nil {
+							if s, ok := constString(*op); ok && s == "!" {
+								neg = true
+							}
+						}
+					}
+				})
+			}
+			if !neg {
+				continue
+			}
+			n++
+			_, sliced := args[0].(*ssa.Slice)
+			c.Check("negated matchers are combined over the whole list: "+stableFnName(fn), call.Pos(), !sliced && fieldOfLoad(args[0]) != nil,
+				"CombineMatchers with a negating matcher is given a part of the value list: the `none of these owners` condition is split over several rules")
+			inLoop := false
+			for _, h := range fn.Blocks {
+				if strings.HasSuffix(h.Comment, ".loop") && loopMembers(fn, h)[call.Block()] {
+					inLoop = true
+				}
+			}
+			c.Check("the negated RETURN rule is built once, not per iteration: "+stableFnName(fn), call.Pos(), !inLoop,
+				"a rule made of negated owner matches is emitted inside a loop: with more values than fit one pass, each RETURN rule returns the members of the other passes (first match wins), so no included owner's outbound traffic reaches the redirect any more")
+		}
+	}
+	c.Check("negated include filters found", token.NoPos, n >= 1, "no CombineMatchers call with a negating matcher found")
+	c.Floor(3)
 }
